@@ -128,7 +128,7 @@ theorem addAndLog_mirror_sq {K K' : Kern} {pool : Pool} {ms : Nat → Nat} (hk :
           simp only [Except.map, mKeyResult, hv.1, hv.2, Int.cast_neg]
 
 /-- the execution price of `add_liquidity_by_tick` on the mirror: explicit sqrt price through `ms`, explicit tick negated -/
-theorem sqrtOrTick_mirror {K K' : Kern} {pool : Pool} {ms : Nat → Nat} (hk : KernMirror K K' pool ms)
+theorem sqrtOrTick_mirror_sq {K K' : Kern} {pool : Pool} {ms : Nat → Nat} (hk : KernMirror K K' pool ms)
     (sq : Option Nat) (t : Option Int) :
     sqrtOrTick K' (sq.map ms) (t.map (fun x => -x)) = (sqrtOrTick K sq t).map (fun o => o.map ms) := by
   cases sq with
@@ -153,7 +153,7 @@ theorem addByTick_mirror_sq {K K' : Kern} {pool : Pool} {ms : Nat → Nat} (hk :
       simp [h, this]
     · have : ¬ (-u > -l) := by omega
       simp [h, this]
-  simp only [mPool_spacing, sqrtOrTick_mirror hk, mState_wallet, mPool_baseTok, mPool_quoteTok]
+  simp only [mPool_spacing, sqrtOrTick_mirror_sq hk, mState_wallet, mPool_baseTok, mPool_quoteTok]
   cases hso : sqrtOrTick K sq t with
   | error e => exact ⟨rfl, rfl⟩
   | ok sq1 =>
